@@ -7,15 +7,19 @@
 # (edge-dominators), reaching definitions of the counters, counted-loop
 # recognition, and folding of index expressions over the *finite* domain
 # (len in 0..255 restricted by the guard atoms) x (loop range).  Nothing is
-# compiled to code or run.
+# compiled to code or run.  A bound computed from the bitmap (highest set
+# bit) is evaluated per case of an exhaustive split and joins that domain
+# (Dec.derive); the decoder is also interpreted on boundary witnesses against
+# the reference decoding (C20.R8), which decides when a shape is not recognised.
 
 import copy
+import operator
 import os
 import re
 import shutil
 import tempfile
 
-from report import AnalysisError
+from report import AnalysisError, STAGE_FAILED
 from cfront import (TU, CCFG, kids, kind, strip, walk, ctext, CLower, SKIP,
                     array_extent, strip_comments, slice_function)
 import exprnf as X
@@ -60,7 +64,27 @@ EXPLANATION = (
     "bits, each 0, 1, unknown or the OR of a set of bitmap bits, moved exactly by shifts with known counts, masks, truncation, "
     "zero- and sign-extension. The conditions must be true exactly when bit i&7 of octet len-1-(i>>3) is set -- decided on the bit "
     "sets, for all bitmap contents at once -- and no shift on the way may reach the width of its promoted left operand "
-    "(`bits & (1 << i)` with a 32 bit `1`: sign-extended mask for i = 31, undefined for i >= 32).")
+    "(`bits & (1 << i)` with a 32 bit `1`: sign-extended mask for i = 31, undefined for i >= 32). "
+    "A loop bound or index guard that is not a function of the length but is computed from the bitmap in front of the loops (the index of "
+    "the highest set bit + 1, so that list and walk stop there) is evaluated, not pattern-matched: the statements in front are executed "
+    "in the typed word model for every accepted length and every case of the exhaustive split of the bitmaps by their highest set bit "
+    "(none / bit p set, higher ones clear, lower ones symbolic); a local that has a definite value in every case joins the finite domain "
+    "(length x value x loop range) at the statements where it holds its final value, and C20.R4 demands per case that the walk's bound "
+    "lies above the highest set bit and not above 8*len -- every index left out is clear. C20.R4 also relates the number of entries at "
+    "which the cell-allocation list is closed (bound on the fill counter in the loop test, exit once it reaches a threshold) to the number "
+    "of walked bits: capacity >= walked bits for every length (and case), else a set bit ends decoding although its channel exists. With a "
+    "bound that varies with the bitmap the rules do not know which (length, value) pairs reach which statement, so there a failing "
+    "obligation is a proof that did not close, not a counterexample: it is kept back like a shape that cannot be classified. "
+    "C20.R8 folds the decoder on boundary witnesses: the clang AST (helpers inlined; calls that could not be inlined are followed) is "
+    "interpreted by the rule module -- integers in the types clang resolved, every array and out-parameter an object of its extent, "
+    "unset locals indeterminate -- for every length 0..8 x {empty, full, highest set bit at every position, mixed lower bits} against a "
+    "64 channel cell allocation, the full and two mixed bitmaps per length against cell allocations of 0, 1, 3, 9 and 64 channels with and "
+    "without ARFCN 0, and lengths 9..255; return code, hopping list and frequency table are compared with the reference decoding "
+    "(ascending ARFCN, 0 last; octet len-1-(i>>3), bit i&7; a set bit beyond the cell allocation ends decoding). A difference, an access "
+    "outside an object, an indeterminate index or an undefined shift is a violation with the witness as counterexample; it also decides "
+    "in place of a structural rule that met a shape it cannot classify (helper with two returns or an out-parameter, loop-carried word, "
+    "pointer walk): agreement on every witness ends the run silently with the structural proof recorded as open; when the fold meets "
+    "something it does not model (an external call, goto) nothing is decided and the ANALYSIS-ERROR stands.")
 ASSUMPTIONS = [
     "clang 14 parses the sliced function exactly as the layer23 build would (prelude models only declarations: stdint.h, EINVAL sign, struct gsm_sysinfo_freq {uint8_t mask;}, FREQ_TYPE_* values and array extents read from sysinfo.h, LOGP reduced to the evaluation of its value arguments)",
     "int is 32 bit: no counter in the function exceeds 2040, so machine arithmetic coincides with integer arithmetic",
@@ -71,6 +95,8 @@ ASSUMPTIONS = [
     "the bitmap is not modified while it is decoded (const parameter, no store through it, out-parameters do not alias it), so a condition on an octet tested before a forward jump of the walk still holds for the indices the jump leaves out",
     "trx_if_cmd_setfh: cmdp->ma points to an array of cmdp->ma_len elements, so `cmdp->ma + cmdp->ma_len` is a valid one-past-the-end pointer and differs from cmdp->ma exactly when the length is not 0; the length counts array elements, so linear arithmetic on it does not wrap",
     "a function the decoder calls that has a definition in sysinfo.c -- or, when sysinfo.c includes sysinfo.h, an (inline) definition there -- is that definition (no other translation unit overrides it); integer conversions at its parameters / result are value preserving unless they narrow to a type smaller than int (then the call is not inlined)",
+    "bitmap-derived bounds: the split of the v-octet bitmaps into 'no bit set' and 'bit p is the highest set bit' (p = 0 .. 8v-1) is exhaustive; within a case the bits below p are symbolic, so a local that evaluates to a concrete value in a case has that value for every bitmap of the case; it stands for that value only at statements from which none of its writes can be reached",
+    "C20.R8 (witness fold): the interpreter in this module implements the C semantics of the constructs it accepts (integer conversions and arithmetic wrap in the widths of the parse target, signed >> is arithmetic, pointers are (object, offset) pairs that never leave their object unnoticed, a scalar whose address is taken is a one-element object, an unset object holds an indeterminate value that may be copied but not compared, branched on or used as an index); LOGP evaluates its value arguments and does nothing else; agreement on the witnesses is evidence for a decoder whose shape the structural rules do not recognise, not a proof for all inputs (the evidence records the structural proof as open)",
     "C20.R7 (typed word model): integer widths are those of the parse target (char 8, short 16, int 32, long long and uint64_t 64 bit, long as uint64_t's typedef shows); signed integers are two's complement, conversion to a narrower signed type wraps, >> of a negative value is arithmetic and << of a signed value wraps into the sign bit (what gcc and clang define); a shift by a negative count or by a count >= the width of the promoted left operand is undefined (C11 6.5.7) and is reported, not evaluated",
 ]
 
@@ -622,6 +648,9 @@ class FM:
         self.addr = set()
         self.calls = []
         self._gcache = {}
+        self.derived = {}       # bitmap-derived bound -> ids of the CFG nodes at which it holds its final value (Dec.derive)
+        self.dcases = {}        # bitmap length -> [(highest set bit | -1, {derived bound: value})]
+        self.lenparam = None
         self._scan()
         self.LW = Lower(tu, {})
         self._env()
@@ -999,7 +1028,7 @@ class FM:
             if len(vals) != 1 or None in vals:
                 continue
             for (b, _) in ub:
-                if not free_vars(b) <= self.invariant:
+                if not free_vars(b) <= self.inv_at(c):
                     raise AnalysisError("loop bound %s of `%s` is not invariant" % (X.show(b), var))
             li = {"stmt": stmt, "cond": c, "var": var, "init": vals.pop(), "bounds": [b for (b, _) in ub],
                   "inc": w.node, "region": region, "skips": []}
@@ -1078,21 +1107,23 @@ class FM:
             return True
         pv = set()
         for t in li["bounds"] + [sk["term"] for sk in li["skips"]]:
-            pv |= free_vars(t) - {li["var"]}
+            pv |= free_vars(t) - {li["var"]} - self.dvars(li["cond"])
         if len(pv) > 1 or any(" ".join(self.ptype.get(p, "").split()) != "uint8_t" for p in pv):
             return False
         p = pv.pop() if pv else None
+        if p is None and self.dvars(li["cond"]):
+            p = self.lenparam
         for sk in li["skips"]:
             for v in (self.domain(sk["node"], p) if p else [0]):
-                vals = {p: v} if p else {}
-                try:
-                    hi = self.loop_hi(li, vals)
-                    for x in range(li["init"], hi):
-                        vals[li["var"]] = x
-                        if ev(sk["term"], vals) < x:
-                            return False
-                except (Unknown, AnalysisError):
-                    return False
+                for vals in (self.vals(li["cond"], v, p) if p else [{}]):
+                    try:
+                        hi = self.loop_hi(li, vals)
+                        for x in range(li["init"], hi):
+                            vals[li["var"]] = x
+                            if ev(sk["term"], vals) < x:
+                                return False
+                    except (Unknown, AnalysisError):
+                        return False
         return True
 
     def natural_loop(self, c):
@@ -1145,23 +1176,78 @@ class FM:
                 if not self.pre_increment(li, node):
                     raise AnalysisError("`%s` is used after its increment inside the loop" % li["var"])
                 loops.append(li)
-        rest = set(term_vars) - {param} - {li["var"] for li in loops}
+        rest = set(term_vars) - {param} - {li["var"] for li in loops} - self.dvars(node)
         if rest:
             raise Unknown(sorted(rest)[0])
+        need = set(term_vars)
+        for li in loops:
+            for t in li["bounds"]:
+                need |= free_vars(t)
         for v in self.domain(node, param):
-            base = {param: v}
+            for base in self.vals(node, v, param, need):
+                def rec(k, cur):
+                    if k == len(loops):
+                        yield dict(cur)
+                        return
+                    li = loops[k]
+                    for x in range(li["init"], self.loop_hi(li, base)):
+                        cur[li["var"]] = x
+                        for r in rec(k + 1, cur):
+                            yield r
+                for r in rec(0, dict(base)):
+                    yield r
 
-            def rec(k, cur):
-                if k == len(loops):
-                    yield dict(cur)
-                    return
-                li = loops[k]
-                for x in range(li["init"], self.loop_hi(li, {param: v})):
-                    cur[li["var"]] = x
-                    for r in rec(k + 1, cur):
-                        yield r
-            for r in rec(0, base):
-                yield r
+    # -- bitmap-derived bounds (registered by Dec.derive) ---------------------------
+    def dvars(self, node):
+        """derived bounds that hold their final value at `node` (no write of them is reachable from it)"""
+        return {b for b, fr in self.derived.items() if node.id in fr}
+
+    def inv_at(self, node):
+        return self.invariant | self.dvars(node)
+
+    def cases(self, node, v):
+        """[(p, {param: v, derived bound: value})]: one entry per case of the exhaustive split of the v-octet
+        bitmaps -- p = -1: no bit is set, p >= 0: bit index p is the highest one that is set.  Without a derived bound
+        at `node` nothing depends on the case; the one entry then stands for the bitmap with the highest index set."""
+        dv = sorted(self.dvars(node))
+        if not dv:
+            return [(8 * v - 1, {self.lenparam: v})]
+        # guard atoms over (length, derived bounds) that still speak about the values at `node`: a case they exclude
+        # does not reach the node (e.g. the all-clear bitmap behind `if (nbits)`)
+        key = ("dguards", node.id)
+        if key not in self._gcache:
+            use = []
+            for a in self.atoms(node):
+                fv = free_vars(a[0])
+                if fv & set(dv) and fv <= set(dv) | {self.lenparam} and self.stable(node, a, sorted(fv & set(dv))):
+                    use.append((a[0], a[1]))
+            self._gcache[key] = use
+        out = []
+        for (p, dvals) in self.dcases.get(v, []):
+            d = {self.lenparam: v}
+            d.update({b: dvals[b] for b in dv})
+            try:
+                if any(bool(ev(t, d)) != pol for (t, pol) in self._gcache[key]):
+                    continue
+            except (Unknown, AnalysisError):
+                pass
+            out.append((p, d))
+        return out
+
+    def vals(self, node, v, param=None, need=None):
+        """valuations of (length parameter, derived bounds at `node` [that are in `need`]) for bitmap length v"""
+        param = param or self.lenparam
+        if not self.dvars(node) or param != self.lenparam or (need is not None and not self.dvars(node) & set(need)):
+            return [{param: v}]
+        out, seen = [], set()
+        for (_, d) in self.cases(node, v):
+            if need is not None:
+                d = {k: x for k, x in d.items() if k == param or k in need}
+            k = tuple(sorted(d.items()))
+            if k not in seen:
+                seen.add(k)
+                out.append(dict(d))
+        return out
 
 
 # ================================================================== the slice
@@ -1278,7 +1364,13 @@ def build_slice(L):
         shutil.rmtree(tmp, ignore_errors=True)
     fd = tu.func(FN)
     L.fn(F_SYS, FN)
-    inlined = inline_helpers(tu, fd, FN, offs)
+    inlined, refused = [], []
+    try:
+        inlined = inline_helpers(tu, fd, FN, offs, done=inlined)
+    except AnalysisError as e:
+        # a call that cannot be replaced by the helper's body stays a call: the structural rules then cannot classify
+        # the decoder (Dec), and whether there is a verdict is up to the witness fold, which follows calls (decide)
+        refused.append(str(e))
     for (hn, site) in inlined:
         L.fn(origin.get(hn, F_SYS), hn)
         L.ob("C20.R0", F_SYS, FN, "helper %s() defined in %s is analysed as part of the decoder: its body replaces the call `%s` "
@@ -1287,7 +1379,7 @@ def build_slice(L):
              "inlined", "inlined", True)
     fm = FM(tu, fd, line_off=offs[FN], copies=True)
     return fm, {"SERV": ft["FREQ_TYPE_SERV"], "HOPP": ft["FREQ_TYPE_HOPP"], "NFREQ": ext["freq"],
-                "NHOP": ext["hopping"], "hdr": hdr, "inlined": [hn for (hn, _) in inlined]}
+                "NHOP": ext["hopping"], "hdr": hdr, "inlined": [hn for (hn, _) in inlined], "refused": refused}
 
 
 # ============================================================ helper inlining
@@ -1389,10 +1481,11 @@ def _ref(decl):
             "referencedDecl": {"id": decl.get("id"), "kind": kind(decl), "name": decl.get("name"), "type": decl.get("type", {})}}
 
 
-def inline_helpers(tu, fd, fname, offs, rounds=12):
+def inline_helpers(tu, fd, fname, offs, rounds=12, done=None):
     """replace statement-level calls of functions that have a body in `tu` by their bodies.
-    -> [(helper name, text of the replaced call)]"""
-    done, keep, serial = [], [], [0]
+    -> [(helper name, text of the replaced call)] (also appended to `done` as they are made)"""
+    done = [] if done is None else done
+    keep, serial = [], [0]
     for _ in range(rounds):
         body = tu.body(fd)
         site = None
@@ -1542,6 +1635,7 @@ class Dec:
 
     def __init__(self, L, fm, K):
         self.L, self.fm, self.K = L, fm, K
+        self.pending = []       # what the structural rules could not classify (see decide)
         want = [("struct gsm_sysinfo_freq *", "frequency table"), ("const uint8_t *", "bitmap"), ("uint8_t", "length"),
                 ("uint16_t *", "output list"), ("uint8_t *", "output length"), ("int", "si4 flag")]
         if len(fm.params) != 6:
@@ -1592,6 +1686,86 @@ class Dec:
             if b is None:
                 raise AnalysisError("%s(): store `%s` has an unclassifiable target" % (FN, ctext(w.ast)[:60]))
             self.stores.setdefault(b, []).append((w, lv))
+        fm.lenparam = self.P_LEN
+        self.derive()
+
+    def derive(self):
+        """Bitmap-derived bounds.  A scalar local that is computed from the bitmap in front of the loops (e.g. the
+        index of the highest set bit + 1) and then bounds a loop or guards an index is not a function of the length
+        alone, so the finite domain (length x loop range) of the rules does not cover it.  It is *evaluated*: the
+        statements in front of the first statement behind its last write are executed in the typed word model
+        (WordEval) for every accepted length v and every case of the exhaustive split of the v-octet bitmaps by their
+        highest set bit -- p = -1 (all clear) or bit index p set, higher ones clear, lower ones symbolic.  When the
+        local has a concrete value in every case it joins the domain: the rules quantify over (length, value) pairs
+        that some bitmap produces, and C20.R4 relates the value to the case it came from (no set bit at or above
+        the walk's bound).  It stands for its final value only at CFG nodes from which no write of it can be
+        reached (FM.dvars); elsewhere it stays an unknown local.  Anything that does not evaluate stays unknown too."""
+        fm = self.fm
+        body = fm.tu.body(fm.f)
+        if any(kind(x) in ("GotoStmt", "LabelStmt", "IndirectGotoStmt") for x in walk(body)):
+            return
+        top = kids(body)
+        wn = [written_names(st) for st in top]
+        todo = {}
+        for b, vd in fm.locals.items():
+            ws = fm.writes.get(b, [])
+            if not ws or b in fm.addr or b in fm.dups or b in fm.LW.env or int_type(fm.tu, vd.get("type", {})) is None:
+                continue
+            wids = {w.node.id for w in ws}
+            frozen = {n.id for n in fm.g.nodes if n.id not in wids and not (fm.reach_succ(n) & wids)}
+            # it matters only where a condition reads its final value (directly or through a frozen copy of it)
+            names = {b} | {c for c, src in fm.copy_of.items() if b in src}
+            for c, cws in fm.writes.items():            # locals that are assigned a value computed from it
+                for w in cws:
+                    if w.val is not None and any(kind(x) == "DeclRefExpr" and x.get("referencedDecl", {}).get("name") == b
+                                                 for x in walk(w.val)):
+                        names.add(c)
+            if not any(un.kind == "cond" and un.id in frozen for nm in names for (un, _) in fm.uses.get(nm, [])):
+                continue
+            k = len(top)
+            while k > 0 and b not in wn[k - 1]:
+                k -= 1
+            if k == 0 or k == len(top):
+                continue
+            tn = fm.g.by_ast.get(id(top[k]))
+            if tn is None:
+                tn = next((fm.g.by_ast[id(x)] for x in walk(top[k]) if id(x) in fm.g.by_ast), None)
+            if tn is None:
+                continue
+            todo[b] = (top[k], frozen, tn)
+        if not todo:
+            return
+        vals = {}           # b -> ({(v, p): n}, frozen node ids)
+        for b, (target, frozen, tn) in sorted(todo.items()):
+            got = {}
+            dom = fm.domain(tn, self.P_LEN)
+            if len(dom) > 2 * MAXLEN + 1:
+                continue                    # the length gate is gone (C20.R1 reports that): nothing to enumerate
+            try:
+                for v in dom:
+                    for p in range(-1, 8 * v):
+                        env = WordEval(fm, self, v, top=p).state_at(target)
+                        w = env.get(b) if env is not None else None
+                        if w is None or not w.concrete():
+                            # not reached, or a value that hangs on more than the highest set bit (a list counter
+                            # that depends on the frequency table, a loop-carried index): not this kind of bound
+                            raise CannotFold("`%s` has no definite value for a %d-octet bitmap with highest bit %d" % (b, v, p))
+                        got[(v, p)] = w.value()
+            except (CannotFold, Undefined, Uncertain):
+                continue
+            vals[b] = (got, frozen)
+        if not vals:
+            return
+        for b, (got, frozen) in vals.items():
+            fm.derived[b] = frozen
+        lens = sorted({v for (got, _) in vals.values() for (v, _) in got})
+        for v in lens:
+            rows = []
+            for p in range(-1, 8 * v):
+                if all((v, p) in got for (got, _) in vals.values()):
+                    rows.append((p, {b: got[(v, p)] for b, (got, _) in vals.items()}))
+            fm.dcases[v] = rows
+        fm._gcache = {}
 
     def extent_term(self, txt):
         """term of an array-extent text as clang prints it in the type"""
@@ -1709,10 +1883,10 @@ class Dec:
         fm = self.fm
         dom = fm.domain(node, self.P_LEN)
         for (bt, atom) in fm.upper_bounds(fm.atoms(node), var):
-            if not free_vars(bt) <= fm.invariant:
+            if not free_vars(bt) <= fm.inv_at(atom[2]) & fm.inv_at(node):
                 continue
             try:
-                if not all(ev(bt, {self.P_LEN: v}) <= self.ext_value(base, v) for v in dom):
+                if not all(ev(bt, vals) <= self.ext_value(base, v) for v in dom for vals in fm.vals(node, v)):
                     continue
             except Unknown:
                 continue
@@ -1766,7 +1940,7 @@ class Dec:
                     elif t[0] == "cmp" and t[1] == "<" and not p and t[2] == v:
                         e = t[3]
                         form = "%s >= %s" % (var, X.show(e))
-                    if e is None or not free_vars(e) <= fm.invariant:
+                    if e is None or not free_vars(e) <= fm.inv_at(c) & fm.inv_at(node):
                         continue
                     # once the test holds the store is never reached again
                     if node.id in fm.reach_succ(c, label=lab):
@@ -1775,18 +1949,18 @@ class Dec:
                         why = "exit test `%s` is not passed on every path back to the store" % form
                         continue
                     bad = None
-                    for lv in dom:
+                    for (lv, vals) in [(lv, vals) for lv in dom for vals in fm.vals(node, lv)]:
                         try:
-                            ex = ev(e, {self.P_LEN: lv})
+                            ex = ev(e, vals)
                         except Unknown:
                             bad = "exit bound `%s` cannot be folded" % X.show(e)
                             break
                         if ex < 1:
-                            bad = "exit test `%s` can never hold for %s = %d (bound %d): the counter runs past the array" % (
-                                form, self.P_LEN, lv, ex)
+                            bad = "exit test `%s` can never hold for %s (bound %d): the counter runs past the array" % (
+                                form, fmt_pt(vals), ex)
                             break
                         if ex > self.ext_value(base, lv):
-                            bad = "exit bound %d exceeds the extent %d for %s = %d" % (ex, self.ext_value(base, lv), self.P_LEN, lv)
+                            bad = "exit bound %d exceeds the extent %d for %s" % (ex, self.ext_value(base, lv), fmt_pt(vals))
                             break
                     if bad:
                         why = bad
@@ -1818,12 +1992,15 @@ class Dec:
             if not ok:
                 # guarded, but by a bound that is not a function of the length (a value computed at run time):
                 # the rule cannot evaluate it -- no verdict
-                odd = [bt for (bt, _) in fm.upper_bounds(fm.atoms(node), var) if not free_vars(bt) <= fm.invariant]
+                odd = [bt for (bt, _) in fm.upper_bounds(fm.atoms(node), var) if not free_vars(bt) <= fm.inv_at(node)]
                 if odd:
                     raise AnalysisError("%s(): index `%s` of `%s` is guarded by `%s < %s`, a bound the rule cannot evaluate" % (
                         FN, var, base, var, X.show(odd[0])[:50]))
             if ok is None:
-                return False, "no dominating guard `%s < extent`; %s" % (var, txt)
+                # neither a dominating guard nor a counter the rule knows how to follow (an index that is advanced inside a
+                # conditional expression, by a computed amount, ...): the access may well be guarded in a way the CFG does
+                # not show -- no verdict (the witness fold interprets it)
+                raise AnalysisError("%s(): index `%s` of `%s` has no dominating guard `%s < extent` and %s" % (FN, var, base, var, txt))
             return ok, txt if ok else "no dominating guard `%s < extent`; %s" % (var, txt)
         if term[0] == "idx" and term[1][0] == "v" and term[1][1] in self.arrays:
             return self.prove_element(node, term, base)
@@ -1982,7 +2159,7 @@ def r2_output(L, D):
         li = fm.loop(loops[0])
         once = w.node.id not in fm.reach_succ(w.node, skip=[li["cond"]])
         dom = fm.domain(w.node, D.P_LEN)
-        trips = max([max(0, fm.loop_hi(li, {D.P_LEN: v}) - li["init"]) for v in dom] or [0])
+        trips = max([max(0, fm.loop_hi(li, vals) - li["init"]) for v in dom for vals in fm.vals(li["cond"], v)] or [0])
         L.ob(R, F_SYS, FN, "at most %d entries are stored: loop `%s` runs at most %d times, one store per iteration" % (MAXHOP, li["var"], MAXHOP),
              "<= %d stores" % MAXHOP, "<= %d stores%s" % (trips, "" if once else ", store repeatable within an iteration"),
              once and trips <= MAXHOP, fm.line(w.ast))
@@ -2052,7 +2229,7 @@ def r4_order(L, D):
             FN, ctext(li["skips"][0]["ast"])[:40]))
     if not fm.pre_increment(li, S):
         raise AnalysisError("%s(): `%s` is incremented before the scratch store" % (FN, v))
-    his = {fm.loop_hi(li, {D.P_LEN: x}) for x in fm.domain(S, D.P_LEN)} or {li["init"]}
+    his = {fm.loop_hi(li, vals) for x in fm.domain(S, D.P_LEN) for vals in fm.vals(li["cond"], x)} or {li["init"]}
     vt = fm.lower(w.val)
     if not free_vars(vt) <= {v}:
         raise AnalysisError("%s(): value stored into the scratch list `%s` is not a function of the loop variable" % (FN, X.show(vt)))
@@ -2072,7 +2249,7 @@ def r4_order(L, D):
          "no other early exit", "no other early exit" if not full else "exit at line %s" % fm.nline(full[0]), not full, fm.line(li["stmt"]))
     # FREQ_TYPE_SERV filter on the very ARFCN that is stored
     filt, other_tests = [], []
-    known = {v, cnt, D.P_LEN, D.P_SI4} | fm.invariant
+    known = {v, cnt, D.P_LEN, D.P_SI4} | fm.inv_at(S)
     for (t, p, c, l) in fm.atoms(S):
         mt = mask_test(t)
         if mt and is_freq_mask(mt[0], D.P_FREQ):
@@ -2115,18 +2292,37 @@ def r4_order(L, D):
             raise AnalysisError("%s(): `%s` is incremented before the output store" % (FN, b))
         dom = fm.domain(H, D.P_LEN)
         badr = None
+        dbound = sorted(fm.dvars(l2["cond"]) & set().union(*[free_vars(t) for t in l2["bounds"]]))
         for x in dom:
-            if l2["init"] != 0 or fm.loop_hi(l2, {D.P_LEN: x}) != 8 * x:
-                badr = "%s = %d: bits %d..%d" % (D.P_LEN, x, l2["init"], fm.loop_hi(l2, {D.P_LEN: x}) - 1)
+            # one case per highest set bit p of the x-octet bitmaps (p = -1: none).  The walk must reach p and must not
+            # go past the last bit.  A bound that is a function of the length alone is the same in every case, so it
+            # is 8*x; a bound derived from the bitmap may stop behind the highest set bit of *that* bitmap: every
+            # index it leaves out is clear.
+            for (p, vals) in fm.cases(l2["cond"], x):
+                hi = fm.loop_hi(l2, vals)
+                if l2["init"] != 0 or hi > 8 * x or (p >= 0 and hi <= p):
+                    badr = "%s = %d%s: bits %d..%d" % (D.P_LEN, x, ", highest set bit %d (%s)" % (
+                        p, ", ".join("%s = %d" % (k, vals[k]) for k in dbound)) if dbound else "", l2["init"], hi - 1)
+                    break
+            if badr:
                 break
+        goodr = "bits 0..8*%s-1" % D.P_LEN
+        if dbound and not badr:
+            goodr += " (up to `%s`, evaluated for every length and every highest set bit: no index at or above it is set)" % ", ".join(dbound)
         L.ob(R, F_SYS, FN, "the walk covers exactly the bit indices 0 .. 8*%s-1 in ascending order" % D.P_LEN,
-             "bits 0..8*%s-1" % D.P_LEN, badr or "bits 0..8*%s-1" % D.P_LEN, badr is None, fm.line(l2["stmt"]))
+             "bits 0..8*%s-1" % D.P_LEN, badr or goodr, badr is None, fm.line(l2["stmt"]))
         matoms, unread = [], []
         for (t, p, c, l) in fm.atoms(H):
             if X.V(D.P_MA) not in subterms(t):
-                if not free_vars(t) <= {b, cnt, D.P_LEN, D.P_SI4} | fm.invariant:
+                if not free_vars(t) <= {b, cnt, D.P_LEN, D.P_SI4} | fm.inv_at(H):
                     unread.append(t)
                 continue
+            if c.id not in l2["region"]:
+                # a test of the bitmap in front of the walk is not a condition of one emission but a restriction of the
+                # bitmaps that get here at all (an early return for an all-clear octet, the end of a search for the highest
+                # set bit): what is emitted for those is not what the per-index rules below decide -- no verdict
+                raise AnalysisError("%s(): the bitmap walk is reached only for bitmaps that passed the test `%s` in front of it "
+                                    "(not modelled by the per-index rules)" % (FN, X.show(t)[:60]))
             matoms.append((t, p))
         word = not matoms and bool(unread)
         K1 = "an entry is emitted only under exactly one test of a bitmap bit, taken when the bit is set"
@@ -2137,7 +2333,7 @@ def r4_order(L, D):
             # no condition reads the bitmap octets themselves, but one reads something the octet model cannot follow
             # (a word into which the octets were collected): decided by typed evaluation on the clang AST (C20.R7);
             # what cannot be evaluated there gives no verdict, and the other obligations of the walk are still checked
-            L.stage(r7_word, L, D, H, l2, cnt, fm.line(hw.ast))
+            L.stage(soft(D.pending, r7_word), L, D, H, l2, cnt, fm.line(hw.ast))
         elif len(matoms) <= 1 and None not in shapes:
             tests = [sh + (p,) for sh, (t, p) in zip(shapes, matoms)]
             L.ob(R, F_SYS, FN, K1,
@@ -2172,6 +2368,7 @@ def r4_order(L, D):
             L.ob(R, F_SYS, FN, "a bit index the walk jumps over (`%s`) is never flagged: under every bitmap that takes the jump the bits of "
                  "the indices left out are clear, so no flagged channel is dropped and nothing is emitted out of order" % ctext(sk["ast"])[:40],
                  "every skipped bit is clear", txt, okj, fm.line(sk["ast"]))
+        capacity_ob(L, D, li, l2, cnt, H, dom)
         val = fm.lower(hw.val)
         L.ob(R, F_SYS, FN, "the emitted channel is the list entry with the index of the tested bit", "%s[%s]" % (arr, b), X.show(val),
              val == ("idx", X.V(arr), X.V(b)), fm.line(hw.ast))
@@ -2180,7 +2377,7 @@ def r4_order(L, D):
         if not lim:
             # the emitted index is bounded by a value the rule cannot relate to the number of list entries
             # (neither the fill counter nor a constant of the call): it may be that number -- no verdict
-            odd = [bt for (bt, _) in fm.upper_bounds(fm.atoms(H), b) if not free_vars(bt) <= fm.invariant | {b, cnt}]
+            odd = [bt for (bt, _) in fm.upper_bounds(fm.atoms(H), b) if not free_vars(bt) <= fm.inv_at(H) | {b, cnt}]
             if odd:
                 raise AnalysisError("%s(): the bound `%s` on the index of an emitted entry cannot be related to the number of list entries" % (
                     FN, X.show(odd[0])[:60]))
@@ -2190,7 +2387,7 @@ def r4_order(L, D):
         for (x, ats) in exits_of(fm, l2):
             if any(t == ("cmp", "<", X.V(b), X.V(cnt)) and not p for (t, p) in ats):
                 continue
-            caps = cap_tests(ats, D.is_cnt_term, {D.P_LEN})
+            caps = cap_tests(ats, D.is_cnt_term, {D.P_LEN} | fm.dvars(x))
             verdict = cap_exit(fm, D, l2, dom, caps) if caps else None
             if verdict is None or (not verdict[0] and not all(a in h_atoms or is_cap(a, D.is_cnt_term) for a in ats)):
                 other.append(x)         # not a test of the output counter, or one whose other conditions are not those of the store
@@ -2227,6 +2424,60 @@ def r4_order(L, D):
         L.ob(R, F_SYS, FN, "write to the frequency table `%s` only maintains FREQ_TYPE_HOPP and only for SI4" % ctext(fw.ast)[:60],
              "|= / &= ~ FREQ_TYPE_HOPP under `%s`" % D.P_SI4,
              "%s%s" % (ctext(fw.ast)[:60], "" if under else " (not under `%s`)" % D.P_SI4), under and only_hopp, fm.line(fw.ast))
+
+
+def capacity_ob(L, D, li, l2, cnt, H, dom):
+    """C20.R4, clause "contains exactly the cell-allocation channels whose bit is set": the walk emits list entry i for a
+    set bit i below the number of list entries and ends decoding at a set bit that is not below it.  That number is
+    min(cell channels, capacity), the capacity being the value of the fill counter at which the candidate loop stops
+    (a bound on the counter in the loop test, an exit once it reaches a threshold).  With a capacity below the number
+    of walked bits a cell allocation of more channels than that loses every channel from index `capacity` on: the set
+    bit there ends decoding although the channel exists.  So capacity >= walked bits must hold -- decided for every
+    accepted length and, when a bound is derived from the bitmap, for every highest set bit.  A threshold the rule
+    cannot evaluate gives no verdict."""
+    fm = D.fm
+    if cnt is None:
+        return
+    C = X.V(cnt)
+    inv = {D.P_LEN} | (fm.dvars(li["cond"]) & fm.dvars(l2["cond"]))
+    caps = []           # (threshold term, source text)
+    for (bt, a) in fm.upper_bounds(fm.edge_atoms(li["cond"], True), cnt):
+        caps.append((bt, "loop test `%s < %s`" % (cnt, X.show(bt)), []))
+    for (x, ats) in exits_of(fm, li):
+        for (t, rel) in cap_tests(ats, lambda z: z == C, free_vars_all(ats)):
+            side = [(a, q) for (a, q) in ats if C not in subterms(a) and free_vars(a) <= inv]
+            caps.append((t, "exit `%s`" % (ctext(x.cond)[:40] if getattr(x, "cond", None) else "on the fill counter"), side))
+    worst, n = None, 0
+    for v in dom:
+        for (p, vals) in fm.cases(l2["cond"], v):
+            walked = max(0, fm.loop_hi(l2, vals) - l2["init"])
+            for (t, src, side) in caps:
+                if not free_vars(t) <= inv:
+                    raise AnalysisError("%s(): the number of entries at which the cell-allocation list is closed (%s) cannot be related "
+                                        "to the number of walked bits" % (FN, src))
+                try:
+                    if not all(bool(ev(a, vals)) == q for (a, q) in side):
+                        continue            # this exit cannot be taken for this length
+                    T = ev(t, vals)
+                except Unknown:
+                    raise AnalysisError("%s(): the number of entries at which the cell-allocation list is closed (%s) cannot be folded" % (FN, src))
+                n += 1
+                if T < walked and (worst is None or walked - T > worst[1] - worst[0]):
+                    worst = (max(T, 0), walked, v, src)
+    want = "capacity >= walked bits for every accepted %s" % D.P_LEN
+    found = want if worst is None else (
+        "%s closes the list at %d entries while %d bits are walked for %s = %d: with a cell allocation of more than %d channels "
+        "the set bit at index %d ends decoding although its channel exists" % (worst[3], worst[0], worst[1], D.P_LEN, worst[2], worst[0], worst[0]))
+    L.ob("C20.R4", F_SYS, FN, "the cell-allocation list can take as many entries as bits are walked (it is closed early only at a "
+         "fill count that no walked bit index reaches), so a set bit ends decoding only when it points beyond the cell allocation",
+         want, found, worst is None, fm.line(li["stmt"]))
+
+
+def free_vars_all(ats):
+    out = set()
+    for (t, _) in ats:
+        out |= free_vars(t)
+    return out
 
 
 def abstract_reads(t, ma, vals):
@@ -2323,10 +2574,11 @@ def skip_fold(fm, D, li, sk):
     b = li["var"]
     inside = [(a[0], a[1]) for a in fm.atoms(sk["node"]) if a[2].id in li["region"] and a[2] is not li["cond"]]
     cache, n, exact = {}, 0, True
-    for v in fm.domain(sk["node"], D.P_LEN):
-        hi = fm.loop_hi(li, {D.P_LEN: v})
+    for (v, base) in [(v, base) for v in fm.domain(sk["node"], D.P_LEN) for base in fm.vals(li["cond"], v)]:
+        hi = fm.loop_hi(li, base)
         for x in range(li["init"], hi):
-            vals = {D.P_LEN: v, b: x}
+            vals = dict(base)
+            vals[b] = x
             use = []
             for a in inside:
                 try:
@@ -2386,10 +2638,10 @@ def cap_exit(fm, D, li, dom, caps):
     behind the last store (nothing is lost); with T below it, the allocation that flags the first T+1
     channels of a cell allocation of > T channels loses a channel.  -> (ok, text) | None (cannot fold)"""
     worst = None
-    for v in dom:
+    for (v, vals) in [(v, vals) for v in dom for vals in fm.vals(li["cond"], v)]:
         try:
-            T = max(ev(t, {D.P_LEN: v}) for (t, _) in caps)
-            trips = max(0, fm.loop_hi(li, {D.P_LEN: v}) - li["init"])
+            T = max(ev(t, vals) for (t, _) in caps)
+            trips = max(0, fm.loop_hi(li, vals) - li["init"])
         except Unknown:
             return None
         if T < trips and (worst is None or trips - T > worst[1] - worst[0]):
@@ -2619,8 +2871,11 @@ def written_names(st):
 class WordEval:
     """typed evaluation of expressions / execution of statements for one concrete bitmap length"""
 
-    def __init__(self, fm, D, lenv):
-        self.fm, self.D, self.tu, self.lenv = fm, D, fm.tu, lenv
+    def __init__(self, fm, D, lenv, top=None):
+        """top=None: every bitmap bit is symbolic.  Otherwise one case of the exhaustive split of the lenv-octet bitmaps
+        by their highest set bit: top = -1 -- no bit is set; top = p >= 0 -- bit index p (TS 44.018 numbering: octet
+        lenv-1-(p>>3), bit p&7) is set, every higher index is clear, the lower ones are symbolic."""
+        self.fm, self.D, self.tu, self.lenv, self.top = fm, D, fm.tu, lenv, top
         self.steps = 0
         self.vtype = {}
         for nm, vd in fm.locals.items():
@@ -2712,7 +2967,13 @@ class WordEval:
     def octet(self, k):
         if not 0 <= k < self.lenv:
             return W.top((8, False))          # the read itself is the business of the bounds obligations
-        return W(8, False, [frozenset([(k, j)]) for j in range(8)])
+        if self.top is None:
+            return W(8, False, [frozenset([(k, j)]) for j in range(8)])
+        bits = []
+        for j in range(8):
+            ix = bit_index(self.lenv, (k, j))
+            bits.append(0 if ix > self.top else 1 if ix == self.top else frozenset([(k, j)]))
+        return W(8, False, bits)
 
     def put(self, store, nm, v):
         if store is None:
@@ -2962,7 +3223,7 @@ def r7_word(L, D, H, l2, cnt, hline):
         raise AnalysisError("%s(): the walk over a collected word jumps over bit indices (`%s`): not modelled" % (
             FN, ctext(l2["skips"][0]["ast"])[:40]))
     region = l2["region"]
-    known = {b, cnt, D.P_LEN, D.P_SI4} | fm.invariant
+    known = {b, cnt, D.P_LEN, D.P_SI4} | fm.inv_at(H)
     sel = []
     for (c, l) in fm.g.guards(H):
         if c.kind != "cond" or not getattr(c, "cond", None) or not isinstance(l, bool):
@@ -3028,7 +3289,7 @@ def r7_word(L, D, H, l2, cnt, hline):
                     return None
                 return M.ev(d.val, look_at(d.node, i, depth + 1))
             return look
-        for i in range(l2["init"], fm.loop_hi(l2, {D.P_LEN: v})):
+        for i in range(l2["init"], max([fm.loop_hi(l2, vals) for vals in fm.vals(l2["cond"], v)] or [l2["init"]])):
             spec = (v - 1 - (i >> 3), i & 7)
             pos, neg, dead = [], [], False
             try:
@@ -3096,6 +3357,904 @@ def r7_word(L, D, H, l2, cnt, hline):
          "of the promoted left operand for every accepted length and every bit index 0 .. 8*%s-1 (otherwise the test selects no "
          "particular bit)" % D.P_LEN,
          "shift count < width of the shifted operand", undef or "shift count < width of the shifted operand", undef is None, hline)
+
+
+# ============================================================ witness fold (C20.R8)
+#
+# The structural rules above decide the property for every input, but only for decoders whose shape they
+# recognise.  As a precision aid the decoder is also *folded on boundary witnesses*: its clang AST (helpers inlined)
+# is interpreted -- by this module, in the integer types clang resolved; nothing of the repository is compiled or
+# run -- for concrete frequency tables, bitmaps and lengths, with every array an object of its declared extent, and
+# the produced return code / hopping list / frequency table are compared with the reference decoding of
+# TS 44.018 10.5.2.21.  A difference is a concrete counterexample (violation); agreement on all witnesses keeps a
+# decoder whose shape the structural rules do not recognise from being reported as "no verdict".
+
+class CannotEval(Exception):
+    """the interpreter meets a construct it does not model (-> the fold decides nothing)"""
+
+
+class Fault(Exception):
+    """the interpreted decoder accesses an object outside its extent, indexes with an indeterminate value or executes
+    an undefined shift"""
+
+
+FAST_OPS = {"+": operator.add, "-": operator.sub, "*": operator.mul, "&": operator.and_, "|": operator.or_, "^": operator.xor}
+
+
+class _Undef(object):
+    def __repr__(self):
+        return "an indeterminate value"
+
+
+UNDEF = _Undef()
+
+
+class Buf(object):
+    __slots__ = ("name", "data", "et", "struct")
+
+    def __init__(self, name, data, et, struct=False):
+        self.name, self.data, self.et, self.struct = name, data, et, struct
+
+
+class Ptr(object):
+    __slots__ = ("buf", "off")
+
+    def __init__(self, buf, off):
+        self.buf, self.off = buf, off
+
+
+class _Ret(Exception):
+    def __init__(self, v):
+        self.v = v
+
+
+class _Goto(Exception):
+    def __init__(self, label):
+        self.label = label
+
+
+class _Brk(Exception):
+    pass
+
+
+class _Cnt(Exception):
+    pass
+
+
+def _wrap(v, t):
+    if t is None or v is UNDEF or isinstance(v, Ptr):
+        return v
+    w, s = t
+    v &= (1 << w) - 1
+    if s and v >> (w - 1):
+        v -= 1 << w
+    return v
+
+
+class State(object):
+    __slots__ = ("loc", "steps", "depth")
+
+    def __init__(self):
+        self.loc, self.steps, self.depth = {}, 0, 0
+
+
+class Conc(object):
+    """closure compiler for the statements / expressions of one function (concrete interpretation)"""
+    MAXSTEPS = 150000           # loop iterations per run
+
+    def __init__(self, tu, fdecl, root=None):
+        self.tu, self.f = tu, fdecl
+        self.root = root or self
+        if root is None:
+            self.subs = {}
+        self.vtype = {}
+        for x in walk(fdecl):
+            if kind(x) in ("VarDecl", "ParmVarDecl"):
+                self.vtype[x.get("name")] = int_type(tu, x.get("type", {}))
+        self.params = [p.get("name") for p in tu.fparams(fdecl)]
+        rt = fdecl.get("type", {}).get("qualType", "").split("(")[0].strip()
+        self.rtype = int_type(tu, rt)
+        self.void = rt == "void"
+        # a scalar whose address is taken lives in a one-element object, so that `&x` is a pointer like any other
+        self.boxed = set()
+        for x in walk(fdecl):
+            if kind(x) == "VarDecl" and x.get("storageClass") in ("static", "extern"):
+                raise CannotEval("%s() has a static local" % fdecl.get("name"))
+            if kind(x) == "UnaryOperator" and x.get("opcode") == "&":
+                t = strip(kids(x)[0])
+                if kind(t) == "DeclRefExpr" and t.get("referencedDecl", {}).get("kind") in ("VarDecl", "ParmVarDecl") and \
+                        "[" not in t.get("type", {}).get("qualType", ""):
+                    if self.vtype.get(t["referencedDecl"].get("name")) is None:
+                        raise CannotEval("address of `%s`, which is not an integer" % t["referencedDecl"].get("name"))
+                    self.boxed.add(t["referencedDecl"].get("name"))
+        self.body = self.stmt(tu.body(fdecl))
+
+    def sub(self, name):
+        """compiled body of a function the decoder calls (it must have a definition in the slice)"""
+        root = self.root
+        if name not in root.subs:
+            h = self.tu.functions.get(name)
+            if h is None or not any(kind(x) == "CompoundStmt" for x in kids(h)):
+                raise CannotEval("call of %s(), which has no definition in the slice" % name)
+            if h.get("variadic") or "..." in h.get("type", {}).get("qualType", ""):
+                raise CannotEval("call of the variadic function %s()" % name)
+            root.subs[name] = None          # being compiled: a recursive call finds None
+            root.subs[name] = Conc(self.tu, h, root)
+        if root.subs[name] is None:
+            raise CannotEval("%s() is recursive" % name)
+        return root.subs[name]
+
+    def call(self, e):
+        ks = kids(e)
+        cal = strip(ks[0])
+        rd = cal.get("referencedDecl", {}) if kind(cal) == "DeclRefExpr" else {}
+        if rd.get("kind") != "FunctionDecl":
+            raise CannotEval("call `%s` through something that is not a function name" % ctext(e)[:40])
+        name = rd.get("name")
+        sub = self.sub(name)
+        args = [self.expr(a) for a in ks[1:]]
+        if len(args) != len(sub.params):
+            raise CannotEval("call of %s() with %d arguments" % (name, len(args)))
+
+        def call(st):
+            vals = [a(st) for a in args]
+            saved = st.loc
+            st.depth += 1
+            if st.depth > 8:
+                raise CannotEval("calls nested deeper than 8")
+            st.loc = {p: _wrap(v, sub.vtype.get(p)) for p, v in zip(sub.params, vals)}
+            for p in sub.boxed & set(sub.params):
+                st.loc[p] = Ptr(Buf(p, [st.loc[p]], sub.vtype.get(p)), 0)
+            r = UNDEF
+            try:
+                try:
+                    sub.body(st)
+                except _Ret as x:
+                    r = x.v
+            finally:
+                st.loc = saved
+                st.depth -= 1
+            if sub.void or r is None:
+                return 0 if sub.void else UNDEF
+            return _wrap(r, sub.rtype)
+        return call
+
+    def typ(self, n):
+        return int_type(self.tu, n.get("type", {}))
+
+    # -- lvalues: closures st -> ('v', name) | ('e', Buf, index) -------------------
+    def lval(self, e):
+        k = kind(e)
+        ks = kids(e)
+        if k in ("ParenExpr", "ConstantExpr"):
+            return self.lval(ks[0])
+        if k in ("ImplicitCastExpr", "CStyleCastExpr") and e.get("castKind") == "NoOp":
+            return self.lval(ks[0])
+        if k == "DeclRefExpr":
+            rd = e.get("referencedDecl", {})
+            if rd.get("kind") not in ("VarDecl", "ParmVarDecl"):
+                raise CannotEval("`%s` is not a variable" % ctext(e)[:40])
+            nm = rd.get("name")
+            if nm in self.boxed:
+                return lambda st: ("e", st.loc[nm].buf, 0)
+            ref = ("v", nm)
+            return lambda st: ref
+        if k == "ArraySubscriptExpr":
+            a, b = self.expr(ks[0]), self.expr(ks[1])
+            txt = ctext(e)[:50]
+
+            def sub(st):
+                p, i = a(st), b(st)
+                if isinstance(i, Ptr):
+                    p, i = i, p
+                if i is UNDEF and isinstance(p, Ptr):
+                    raise Fault("uses an indeterminate value (a variable or list entry that was never set) as the index in `%s`" % txt)
+                if not isinstance(p, Ptr) or isinstance(i, Ptr):
+                    raise CannotEval("`%s`: base / index is not a pointer / an integer with a definite value" % txt)
+                return ("e", p.buf, p.off + i)
+            return sub
+        if k == "UnaryOperator" and e.get("opcode") == "*":
+            a = self.expr(ks[0])
+            txt = ctext(e)[:50]
+
+            def deref(st):
+                p = a(st)
+                if not isinstance(p, Ptr):
+                    raise CannotEval("`%s`: operand is not a pointer with a definite value" % txt)
+                return ("e", p.buf, p.off)
+            return deref
+        if k == "MemberExpr":
+            if e.get("isArrow"):
+                a = self.expr(ks[0])
+                txt = ctext(e)[:50]
+
+                def arrow(st):
+                    p = a(st)
+                    if not isinstance(p, Ptr) or not p.buf.struct:
+                        raise CannotEval("`%s`: not a pointer into the frequency table" % txt)
+                    return ("e", p.buf, p.off)
+                return arrow
+            a = self.lval(ks[0])
+            txt = ctext(e)[:50]
+
+            def dot(st):
+                r = a(st)
+                if r[0] != "e" or not r[1].struct:
+                    raise CannotEval("`%s`: not an element of the frequency table" % txt)
+                return r
+            return dot
+        raise CannotEval("`%s` (%s) is not an lvalue the interpreter models" % (ctext(e)[:40], k))
+
+    @staticmethod
+    def load(st, r, structs=False):
+        if r[0] == "v":
+            try:
+                return st.loc[r[1]]
+            except KeyError:
+                raise CannotEval("`%s` is read outside the scope of its declaration" % r[1])
+        buf, i = r[1], r[2]
+        if not 0 <= i < len(buf.data):
+            raise Fault("reads %s[%d], outside the %d element%s of %s" % (buf.name, i, len(buf.data), "" if len(buf.data) == 1 else "s", buf.name))
+        if buf.struct and not structs:
+            raise CannotEval("an element of the frequency table is used as a whole")
+        return buf.data[i]
+
+    def store(self, st, r, v):
+        if r[0] == "v":
+            st.loc[r[1]] = _wrap(v, self.vtype.get(r[1]))
+            return st.loc[r[1]]
+        buf, i = r[1], r[2]
+        if not 0 <= i < len(buf.data):
+            raise Fault("writes %s[%d], outside the %d element%s of %s" % (buf.name, i, len(buf.data), "" if len(buf.data) == 1 else "s", buf.name))
+        if isinstance(v, Ptr):
+            raise CannotEval("a pointer is stored into %s" % buf.name)
+        buf.data[i] = _wrap(v, buf.et)
+        return buf.data[i]
+
+    # -- expressions: closures st -> int | UNDEF | Ptr --------------------------------
+    def expr(self, e):
+        k = kind(e)
+        ks = kids(e)
+        if k in ("ParenExpr", "ConstantExpr"):
+            return self.expr(ks[0])
+        if k in ("ImplicitCastExpr", "CStyleCastExpr"):
+            ck = e.get("castKind")
+            if ck == "LValueToRValue":
+                src = strip(ks[0])
+                if kind(src) == "DeclRefExpr" and src.get("referencedDecl", {}).get("kind") in ("VarDecl", "ParmVarDecl") and \
+                        src["referencedDecl"].get("name") not in self.boxed:
+                    nm = src["referencedDecl"].get("name")
+
+                    def var(st):
+                        try:
+                            return st.loc[nm]
+                        except KeyError:
+                            raise CannotEval("`%s` is read outside the scope of its declaration" % nm)
+                    return var
+                lv = self.lval(ks[0])
+                load = self.load
+                is_member = kind(src) == "MemberExpr"
+                return lambda st: load(st, lv(st), is_member)
+            if ck == "ArrayToPointerDecay":
+                lv = self.lval(ks[0])
+                load = self.load
+
+                def decay(st):
+                    p = load(st, lv(st))
+                    if not isinstance(p, Ptr):
+                        raise CannotEval("array `%s` has no storage" % ctext(ks[0])[:30])
+                    return p
+                return decay
+            a = self.expr(ks[0])
+            if ck in ("NoOp", "BitCast"):
+                return a
+            if ck == "ToVoid":
+                def void(st):
+                    a(st)
+                    return 0
+                return void
+            if ck == "IntegralCast":
+                t = self.typ(e)
+                if t is None:
+                    raise CannotEval("conversion to %r" % e.get("type", {}).get("qualType"))
+                t0 = self.typ(ks[0])
+                if t0 is not None and ((t[0] > t0[0] and (t[1] or not t0[1])) or t == t0):
+                    return a                    # value preserving
+                return lambda st: _wrap(a(st), t)
+            if ck == "IntegralToBoolean":
+                truth = self.truth
+                return lambda st: int(truth(a(st)))
+            if ck == "NullToPointer":
+                raise CannotEval("null pointer constant")
+            raise CannotEval("cast %s in `%s`" % (ck, ctext(e)[:40]))
+        if k == "IntegerLiteral":
+            v = _wrap(int(e.get("value", "0"), 0), self.typ(e) or (32, True))
+            return lambda st: v
+        if k == "CharacterLiteral":
+            v = int(e.get("value", 0))
+            return lambda st: v
+        if k == "UnaryExprOrTypeTraitExpr":
+            v = self.tu.fold(e)
+            if v is None:
+                raise CannotEval("`%s` does not fold" % ctext(e)[:40])
+            return lambda st: v
+        if k == "DeclRefExpr":
+            if e.get("referencedDecl", {}).get("kind") == "EnumConstantDecl":
+                v = self.tu.fold(e)
+                if v is None:
+                    raise CannotEval("enumerator `%s` does not fold" % ctext(e)[:40])
+                return lambda st: v
+            lv = self.lval(e)
+            load = self.load
+            return lambda st: load(st, lv(st))
+        if k in ("ArraySubscriptExpr", "MemberExpr"):
+            lv = self.lval(e)
+            load = self.load
+            is_member = k == "MemberExpr"
+            return lambda st: load(st, lv(st), is_member)
+        if k == "UnaryOperator":
+            return self.unary(e, ks[0])
+        if k == "BinaryOperator":
+            return self.binary(e, ks[0], ks[1])
+        if k == "CompoundAssignOperator":
+            lv, b = self.lval(ks[0]), self.expr(ks[1])
+            ct = int_type(self.tu, e.get("computeLHSType", {})) or self.typ(e)
+            rt = int_type(self.tu, e.get("computeResultType", {})) or ct
+            op = e.get("opcode", "")[:-1]
+            f = self.arith(e, op, rt)
+            load, store = self.load, self.store
+            is_member = kind(strip(ks[0])) == "MemberExpr"
+            shift = op in ("<<", ">>")
+
+            def cas(st):
+                r = lv(st)
+                y = b(st)
+                x = load(st, r, is_member)
+                if isinstance(x, Ptr):
+                    return store(st, r, f(x, y))
+                return store(st, r, f(_wrap(x, ct), y if shift else _wrap(y, ct)))
+            return cas
+        if k == "ConditionalOperator":
+            c, a, b = self.expr(ks[0]), self.expr(ks[1]), self.expr(ks[2])
+            truth = self.truth
+            return lambda st: a(st) if truth(c(st)) else b(st)
+        if k == "CallExpr":
+            return self.call(e)
+        raise CannotEval("`%s` (%s) is not modelled by the interpreter" % (ctext(e)[:40], k))
+
+    @staticmethod
+    def truth(v):
+        if v is UNDEF:
+            raise CannotEval("a branch depends on an indeterminate value")
+        if isinstance(v, Ptr):
+            return True
+        return v != 0
+
+    def unary(self, e, x):
+        op = e.get("opcode")
+        t = self.typ(e)
+        if op in ("++", "--"):
+            lv = self.lval(x)
+            d = 1 if op == "++" else -1
+            post = bool(e.get("isPostfix"))
+            load, store = self.load, self.store
+            is_member = kind(strip(x)) == "MemberExpr"
+            tgt = strip(x)
+            vt = self.vtype.get(tgt.get("referencedDecl", {}).get("name")) if kind(tgt) == "DeclRefExpr" else None
+            if vt is not None and tgt["referencedDecl"].get("name") in self.boxed:
+                vt = None
+            if vt is not None and vt[0] >= 32:
+                nm = tgt["referencedDecl"].get("name")
+                lo, hi = (-(1 << (vt[0] - 1)), 1 << (vt[0] - 1)) if vt[1] else (0, 1 << vt[0])
+
+                def incv(st):
+                    old = st.loc.get(nm)
+                    if old.__class__ is not int or not lo <= old + d < hi:
+                        return inc(st)
+                    st.loc[nm] = old + d
+                    return old if post else old + d
+
+            def inc(st):
+                r = lv(st)
+                old = load(st, r, is_member)
+                if old is UNDEF:
+                    raise CannotEval("`%s` on an indeterminate value" % op)
+                new = store(st, r, Ptr(old.buf, old.off + d) if isinstance(old, Ptr) else old + d)
+                return old if post else new
+            return incv if vt is not None and vt[0] >= 32 else inc
+        if op == "*":
+            lv = self.lval(e)
+            load = self.load
+            return lambda st: load(st, lv(st))
+        if op == "&":
+            lv = self.lval(x)
+
+            def addr(st):
+                r = lv(st)
+                if r[0] != "e":
+                    raise CannotEval("address of the variable `%s`" % r[1])
+                return Ptr(r[1], r[2])
+            return addr
+        a = self.expr(x)
+        if op == "!":
+            truth = self.truth
+            return lambda st: int(not truth(a(st)))
+        if op in ("~", "-", "+"):
+            def un(st):
+                v = a(st)
+                if v is UNDEF:
+                    return v
+                if isinstance(v, Ptr):
+                    raise CannotEval("`%s` on a pointer" % op)
+                return _wrap(~v if op == "~" else -v if op == "-" else v, t)
+            return un
+        raise CannotEval("unary `%s`" % op)
+
+    def arith(self, e, op, t):
+        slow = self.arith_slow(e, op, t)
+        g = FAST_OPS.get(op)
+        if g is None or t is None:
+            return slow
+        lo, hi = (-(1 << (t[0] - 1)), 1 << (t[0] - 1)) if t[1] else (0, 1 << t[0])
+
+        def f(x, y):
+            if x.__class__ is int and y.__class__ is int:
+                r = g(x, y)
+                return r if lo <= r < hi else _wrap(r, t)
+            return slow(x, y)
+        return f
+
+    def arith_slow(self, e, op, t):
+        txt = ctext(e)[:50]
+
+        def f(x, y):
+            if isinstance(x, Ptr) or isinstance(y, Ptr):
+                if op == "+" and not (isinstance(x, Ptr) and isinstance(y, Ptr)) and x is not UNDEF and y is not UNDEF:
+                    return Ptr(x.buf, x.off + y) if isinstance(x, Ptr) else Ptr(y.buf, y.off + x)
+                if op == "-" and isinstance(x, Ptr) and y is not UNDEF:
+                    if not isinstance(y, Ptr):
+                        return Ptr(x.buf, x.off - y)
+                    if y.buf is x.buf:
+                        return x.off - y.off
+                raise CannotEval("pointer arithmetic `%s`" % txt)
+            if x is UNDEF or y is UNDEF:
+                return UNDEF
+            if op == "+":
+                r = x + y
+            elif op == "-":
+                r = x - y
+            elif op == "*":
+                r = x * y
+            elif op == "&":
+                r = x & y
+            elif op == "|":
+                r = x | y
+            elif op == "^":
+                r = x ^ y
+            elif op in ("<<", ">>"):
+                w = t[0] if t else 32
+                if y < 0 or y >= w:
+                    raise Fault("evaluates `%s` with a %d bit left operand and the count %d (a shift by a negative count or by the width "
+                                "of the promoted left operand is undefined, C11 6.5.7)" % (txt, w, y))
+                r = x << y if op == "<<" else x >> y
+            elif op in ("/", "%"):
+                if y == 0:
+                    raise CannotEval("`%s` divides by 0" % txt)
+                q = abs(x) // abs(y) * (1 if (x < 0) == (y < 0) else -1)
+                r = q if op == "/" else x - q * y
+            else:
+                raise CannotEval("operator `%s`" % op)
+            return _wrap(r, t)
+        return f
+
+    def binary(self, e, a, b):
+        op = e.get("opcode")
+        t = self.typ(e)
+        truth = self.truth
+        if op == "=":
+            lv, y = self.lval(a), self.expr(b)
+            store = self.store
+
+            def asg(st):
+                v = y(st)
+                return store(st, lv(st), v)
+            return asg
+        x, y = self.expr(a), self.expr(b)
+        if op == ",":
+            def comma(st):
+                x(st)
+                return y(st)
+            return comma
+        if op == "&&":
+            return lambda st: int(truth(x(st)) and truth(y(st)))
+        if op == "||":
+            return lambda st: int(truth(x(st)) or truth(y(st)))
+        if op in ("==", "!=", "<", ">", "<=", ">="):
+            txt = ctext(e)[:50]
+
+            g = {"==": operator.eq, "!=": operator.ne, "<": operator.lt, ">": operator.gt, "<=": operator.le, ">=": operator.ge}[op]
+
+            def cmp(st):
+                p, q = x(st), y(st)
+                if p.__class__ is int and q.__class__ is int:
+                    return 1 if g(p, q) else 0
+                if p is UNDEF or q is UNDEF:
+                    raise CannotEval("`%s` compares an indeterminate value" % txt)
+                if isinstance(p, Ptr) or isinstance(q, Ptr):
+                    if not (isinstance(p, Ptr) and isinstance(q, Ptr) and p.buf is q.buf):
+                        raise CannotEval("`%s` compares pointers into different objects" % txt)
+                    p, q = p.off, q.off
+                return int(p == q if op == "==" else p != q if op == "!=" else p < q if op == "<" else
+                           p > q if op == ">" else p <= q if op == "<=" else p >= q)
+            return cmp
+        f = self.arith(e, op, t)         # shifts: t is the type of the promoted left operand, the count keeps its own
+        return lambda st: f(x(st), y(st))
+
+    # -- statements: closures st -> None (jumps are exceptions) ----------------------
+    def stmt(self, s):
+        k = kind(s)
+        if k is None:
+            return lambda st: None
+        if k == "CompoundStmt":
+            body = [self.stmt(x) for x in kids(s)]
+            labels = {x.get("declId"): i for i, x in enumerate(kids(s)) if kind(x) == "LabelStmt"}
+            if not labels:
+                def block(st):
+                    for f in body:
+                        f(st)
+                return block
+            limit = self.MAXSTEPS
+
+            def lblock(st):
+                # a goto to a label that is a statement of this block continues there (`goto out;` to the common exit)
+                i = 0
+                while i < len(body):
+                    try:
+                        body[i](st)
+                        i += 1
+                    except _Goto as g:
+                        if g.label not in labels:
+                            raise
+                        st.steps += 1
+                        if st.steps > limit:
+                            raise CannotEval("more than %d jumps / loop iterations" % limit)
+                        i = labels[g.label]
+            return lblock
+        if k == "LabelStmt":
+            inner = [x for x in kids(s) if kind(x)]
+            return self.stmt(inner[-1]) if inner else (lambda st: None)
+        if k == "GotoStmt":
+            label = s.get("targetLabelDeclId")
+
+            def goto(st):
+                raise _Goto(label)
+            return goto
+        if k == "DeclStmt":
+            acts = []
+            for d in kids(s):
+                if kind(d) != "VarDecl":
+                    continue
+                acts.append(self.decl(d))
+
+            def decls(st):
+                for f in acts:
+                    f(st)
+            return decls
+        if k == "IfStmt":
+            inner = s["inner"]
+            els = s.get("hasElse", False)
+            cond, then, other = (inner[-3], inner[-2], inner[-1]) if els else (inner[-2], inner[-1], None)
+            c, a = self.expr(cond), self.stmt(then)
+            b = self.stmt(other) if other is not None else None
+            truth = self.truth
+
+            def ifs(st):
+                if truth(c(st)):
+                    a(st)
+                elif b is not None:
+                    b(st)
+            return ifs
+        if k in ("ForStmt", "WhileStmt", "DoStmt"):
+            inner = s["inner"]
+            if k == "ForStmt":
+                init, cond, inc, body = inner[0], inner[2], inner[3], inner[4]
+            elif k == "WhileStmt":
+                init, cond, inc, body = None, inner[-2], None, inner[-1]
+            else:
+                init, cond, inc, body = None, inner[1], None, inner[0]
+            fi = self.stmt(init) if init else None
+            fc = self.expr(cond) if cond else None
+            fn = self.expr(inc) if inc else None
+            fb = self.stmt(body)
+            truth = self.truth
+            do = k == "DoStmt"
+            limit = self.MAXSTEPS
+
+            def loop(st):
+                if fi:
+                    fi(st)
+                first = do
+                while True:
+                    if not first and fc is not None and not truth(fc(st)):
+                        return
+                    first = False
+                    st.steps += 1
+                    if st.steps > limit:
+                        raise CannotEval("more than %d loop iterations" % limit)
+                    try:
+                        fb(st)
+                    except _Brk:
+                        return
+                    except _Cnt:
+                        pass
+                    if fn:
+                        fn(st)
+            return loop
+        if k == "ReturnStmt":
+            ks = kids(s)
+            v = self.expr(ks[0]) if ks else None
+
+            def ret(st):
+                raise _Ret(v(st) if v else None)
+            return ret
+        if k == "BreakStmt":
+            def brk(st):
+                raise _Brk()
+            return brk
+        if k == "ContinueStmt":
+            def cnt(st):
+                raise _Cnt()
+            return cnt
+        if k == "NullStmt":
+            return lambda st: None
+        if k.endswith("Stmt"):
+            raise CannotEval("statement kind %s" % k)
+        return self.expr(s)
+
+    def decl(self, d):
+        nm = d.get("name")
+        qt = d.get("type", {}).get("qualType", "")
+        init = [c for c in kids(d) if kind(c) and not kind(c).endswith("Attr")]
+        m = re.fullmatch(r"(.+?)\s*\[(.*)\]", qt)
+        if m:
+            et = int_type(self.tu, m.group(1).strip())
+            toks = c_tokens(m.group(2))
+            if et is None or toks is None or "[" in m.group(1) or (init and kind(init[-1]) != "InitListExpr"):
+                raise CannotEval("local array `%s %s`" % (qt, nm))
+            first = []
+            if init:
+                il = init[-1]
+                if any(kind(c) not in ("IntegerLiteral", "ImplicitCastExpr", "ImplicitValueInitExpr") for c in kids(il)) or \
+                        any(kind(c) != "ImplicitValueInitExpr" for c in il.get("array_filler", [])[:1]):
+                    raise CannotEval("initialiser of the local array `%s`" % nm)
+                first = [self.expr(c) if kind(c) != "ImplicitValueInitExpr" else (lambda st: 0) for c in kids(il)]
+            tu = self.tu
+
+            def arr(st):
+                def leaf(t):
+                    if t in tu.enums:
+                        return X.C(tu.enums[t])
+                    v = st.loc.get(t)
+                    if v is None or v is UNDEF or isinstance(v, Ptr):
+                        raise CannotEval("extent of `%s` depends on `%s`" % (nm, t))
+                    return X.C(v)
+                try:
+                    n = ev(cexpr_term(toks, leaf, m.group(2)), {})
+                except (AnalysisError, Unknown) as u:
+                    raise CannotEval("extent of `%s`: %s" % (nm, u))
+                if n < 1:
+                    raise Fault("declares the array `%s[%s]` with %d elements (a zero-length variable-length array is undefined)" % (nm, m.group(2), n))
+                data = [UNDEF] * n
+                if init:
+                    data = [_wrap(f(st), et) for f in first][:n]
+                    data += [0] * (n - len(data))
+                st.loc[nm] = Ptr(Buf(nm, data, et), 0)
+            return arr
+        t = self.vtype.get(nm)
+        v = self.expr(init[-1]) if init else None
+        if nm in self.boxed:
+            def cell(st):
+                st.loc[nm] = Ptr(Buf(nm, [_wrap(v(st), t) if v else UNDEF], t), 0)
+            return cell
+        if init:
+            def one(st):
+                st.loc[nm] = _wrap(v(st), t)
+            return one
+
+        def none(st):
+            st.loc[nm] = UNDEF
+        return none
+
+
+def _lcg(seed):
+    x = seed & 0x7fffffff
+    while True:
+        x = (x * 1103515245 + 12345) & 0x7fffffff
+        yield (x >> 16) & 0xff
+
+
+def bitmap_with_top(v, p, seed):
+    """v-octet bitmap whose highest set bit index is p (TS 44.018 numbering); the lower bits are pseudo-random"""
+    g = _lcg(seed * 131 + 8 * v + p + 7)
+    ma = [next(g) for _ in range(v)]
+    for ix in range(p, 8 * v):
+        o, b = v - 1 - (ix >> 3), ix & 7
+        if ix == p:
+            ma[o] |= 1 << b
+        else:
+            ma[o] &= ~(1 << b) & 0xff
+    return ma
+
+
+CELL_ALLOCATIONS = [
+    ("64 channels, ARFCN 1..64", list(range(1, 65))),
+    ("64 channels with ARFCN 0", [0] + list(range(1, 41)) + list(range(1001, 1024))),
+    ("64 channels without ARFCN 0", list(range(2, 34)) + list(range(512, 544))),
+    ("no channel", []),
+    ("ARFCN 0 only", [0]),
+    ("ARFCN 5 only", [5]),
+    ("ARFCN 0, 1 and 1023", [0, 1, 1023]),
+    ("9 channels with ARFCN 0", [0, 3, 10, 20, 30, 40, 50, 60, 1023]),
+]
+LONG_LENGTHS = (9, 10, 16, 17, 32, 64, 128, 255)
+
+
+def fold_witnesses(tier):
+    """[(cell allocation name, ARFCNs, bitmap octets, si4)] -- every accepted length 0..8 with the empty, the full and,
+    for the highest set bit at every position, a mixed bitmap against a 64 channel cell allocation; the other
+    allocations (64 with ARFCN 0, which the order rule puts last, 64 without it, none, one, ARFCN 0 only, three, nine)
+    with the full bitmap and two mixed ones per length; rejected lengths 9 .. 255.  (thorough: every position for
+    every allocation.)"""
+    out = []
+    name, ca = CELL_ALLOCATIONS[0]
+    for v in range(0, MAXLEN + 1):
+        out.append((name, ca, [0] * v, 0))
+        if v:
+            out.append((name, ca, [0xff] * v, int(v in (1, 8))))
+        for p in range(8 * v):
+            out.append((name, ca, bitmap_with_top(v, p, 1), int(p == 8 * v - 3)))
+    for (name, ca) in CELL_ALLOCATIONS[1:]:
+        for v in range(0, MAXLEN + 1):
+            if v:
+                out.append((name, ca, [0xff] * v, int(v == 2)))
+                out.append((name, ca, bitmap_with_top(v, 8 * v - 1, 2), 0))
+                out.append((name, ca, bitmap_with_top(v, (8 * v) // 2, 3), 0))
+            else:
+                out.append((name, ca, [], 1))
+    if tier == "thorough":
+        for (name, ca) in (CELL_ALLOCATIONS[1], CELL_ALLOCATIONS[2], CELL_ALLOCATIONS[6]):
+            for v in range(1, MAXLEN + 1):
+                for p in range(8 * v):
+                    out.append((name, ca, bitmap_with_top(v, p, 4), p & 1))
+    name, ca = CELL_ALLOCATIONS[1]
+    for v in LONG_LENGTHS:
+        out.append((name, ca, [0xff] * v, 0))
+        out.append((name, ca, [0x00] * (v - 1) + [0x01], 1))
+    return out
+
+
+def reference_decoding(ca, ma):
+    """TS 44.018 10.5.2.21 as the property states it: the cell channels in ascending order with ARFCN 0 last; bit
+    index i is octet len-1-(i>>3), bit i&7; a set bit beyond the cell allocation ends decoding.  None: rejected."""
+    v = len(ma)
+    if v > MAXLEN:
+        return None
+    cells = sorted(a for a in set(ca) if a != 0) + ([0] if 0 in ca else [])
+    out = []
+    for i in range(8 * v):
+        if ma[v - 1 - (i >> 3)] & (1 << (i & 7)):
+            if i >= len(cells):
+                break
+            out.append(cells[i])
+    return out
+
+
+def fmt_witness(name, ma, si4):
+    return "%d-octet bitmap %s, cell allocation: %s%s" % (len(ma), ("".join("%02x" % o for o in ma[:10]) + ("..." if len(ma) > 10 else "")) or "(empty)",
+                                                     name, ", si4" if si4 else "")
+
+
+def r8_fold(L, fm, K, tier):
+    """C20.R8 -- the decoder folded on boundary witnesses against the reference decoding.
+    -> ("agree" | "differ" | "undecided", text).  Obligations are recorded unless the fold is undecided (a construct
+    the interpreter does not model): then it says nothing, and whether there is a verdict is up to the structural rules."""
+    R = "C20.R8"
+    tu = fm.tu
+    want = ["struct gsm_sysinfo_freq *", "const uint8_t *", "uint8_t", "uint16_t *", "uint8_t *", "int"]
+    if len(fm.params) != 6 or [" ".join(fm.ptype[p].split()) for p in fm.params] != want:
+        return "undecided", "the decoder's signature changed"
+    P_FREQ, P_MA, P_LEN, P_HOP, P_CNT, P_SI4 = fm.params
+    SERV, HOPP, N = K["SERV"], K["HOPP"], K["NFREQ"]
+    if SERV == HOPP or not (0 < SERV < 256 and 0 < HOPP < 256) or SERV & (SERV - 1) or HOPP & (HOPP - 1):
+        return "undecided", "FREQ_TYPE_SERV / FREQ_TYPE_HOPP are not two distinct flag bits of the mask octet"
+    try:
+        prog = Conc(tu, fm.f)
+    except CannotEval as u:
+        return "undecided", "the decoder cannot be interpreted: %s" % u
+    except (TypeError, KeyError, IndexError, AttributeError, ValueError, RecursionError) as u:
+        return "undecided", "the decoder cannot be interpreted (AST shape not expected: %s)" % (str(u)[:80] or type(u).__name__)
+    noise = [b for b in (0x04, 0x08, 0x10, 0x20, 0x40, 0x80) if b not in (SERV, HOPP)]
+    diff = fault = gate = table = None
+    n = nlists = 0
+    base = [(noise[0] if a % 3 == 0 else 0) | (noise[1] if a % 7 == 1 else 0) | (HOPP if a % 5 == 2 else 0) for a in range(N)]
+    for (name, ca, ma, si4) in fold_witnesses(tier):
+        masks = list(base)
+        if any(not 0 <= a < N for a in ca):
+            return "undecided", "the frequency table has %d entries" % N
+        for a in ca:
+            masks[a] |= SERV
+        before = list(masks)
+        hop = Buf(P_HOP, [0xeeee] * K["NHOP"], (16, False))
+        cnt = Buf("*" + P_CNT, [0xa5], (8, False))
+        st = State()
+        st.loc = {P_FREQ: Ptr(Buf(P_FREQ, masks, (8, False), True), 0), P_MA: Ptr(Buf(P_MA, list(ma), (8, False)), 0),
+                  P_LEN: len(ma), P_HOP: Ptr(hop, 0), P_CNT: Ptr(cnt, 0), P_SI4: si4}
+        for p in prog.boxed & set(fm.params):
+            st.loc[p] = Ptr(Buf(p, [st.loc[p]], prog.vtype.get(p)), 0)
+        where = fmt_witness(name, ma, si4)
+        ret = None
+        try:
+            try:
+                prog.body(st)
+            except _Ret as r:
+                ret = r.v
+            except (_Brk, _Cnt, _Goto):
+                return "undecided", "break / continue / goto to a place the interpreter does not model"
+        except Fault as f:
+            n += 1
+            fault = fault or "%s: the decoder %s" % (where, f)
+            continue
+        except CannotEval as u:
+            return "undecided", "%s: %s" % (where, u)
+        except RecursionError:
+            return "undecided", "expression nesting too deep for the interpreter"
+        except (TypeError, KeyError, IndexError, AttributeError, ValueError, OverflowError) as u:
+            return "undecided", "%s: a value the interpreter does not model (%s)" % (where, str(u)[:80] or type(u).__name__)
+        n += 1
+        ref = reference_decoding(ca, ma)
+        if ret is None or ret is UNDEF or isinstance(ret, Ptr):
+            return "undecided", "%s: the decoder returns no definite value" % where
+        if ref is None:
+            if ret >= 0:
+                gate = gate or "%s: accepted (return value %d)" % (where, ret)
+            continue
+        if ret < 0:
+            gate = gate or "%s: rejected (return value %d)" % (where, ret)
+            continue
+        nlists += 1
+        got_n = cnt.data[0]
+        got = hop.data[:got_n] if got_n is not UNDEF and got_n <= len(hop.data) else None
+        if got != ref:
+            if diff is None:
+                diff = "%s: the decoder yields %s, the reference decoding %s" % (
+                    where, "a list of %s entries" % got_n if got is None else "%d entries %s" % (len(got), brief(got)),
+                    "%d entries %s" % (len(ref), brief(ref)))
+        changed = [a for a in range(N) if masks[a] is UNDEF or (masks[a] ^ before[a]) & ~HOPP & 0xff]
+        if changed and table is None:
+            table = "%s: mask of ARFCN %d changes from 0x%02x to %s" % (where, changed[0], before[changed[0]],
+                                                                   "0x%02x" % masks[changed[0]] if masks[changed[0]] is not UNDEF else masks[changed[0]])
+    if n < 100:
+        return "undecided", "only %d witnesses were folded" % n
+    L.floor(R, "boundary witnesses on which the decoder was folded", n, 400)
+    dom = "%d witnesses: every length 0..%d x {empty, full, highest set bit at every position} against a 64 channel cell allocation; " \
+          "cell allocations of 0, 1, 3, 9 and 64 channels with / without ARFCN 0; lengths %d..255" % (n, MAXLEN, MAXLEN + 1)
+    ok_txt = "as the reference decoding on all %d witnesses" % n
+    L.ob(R, F_SYS, FN, "folded on boundary witnesses (the clang AST of the decoder is interpreted for concrete frequency tables and bitmaps), "
+         "the decoder yields exactly the hopping list of the reference decoding: the cell channels whose bit is set, in the order "
+         "ARFCN 1, ..., %d, 0, up to the first set bit beyond the cell allocation" % (N - 1), "same list and length on every witness",
+         diff or "same list and length on every witness", diff is None)
+    L.ob(R, F_SYS, FN, "folded on boundary witnesses, the decoder never reads or writes outside an object (frequency table, bitmap of "
+         "`%s` octets, %d-entry output list, output length, its own arrays), never indexes with a value that was not set and executes "
+         "no undefined shift" % (P_LEN, K["NHOP"]), "no access outside an object",
+         fault or "no access outside an object", fault is None)
+    L.ob(R, F_SYS, FN, "folded on boundary witnesses, bitmaps of up to %d octets (an empty one included) are decoded and longer ones are "
+         "rejected with a negative return value" % MAXLEN, "0..%d accepted, longer rejected" % MAXLEN,
+         gate or "0..%d accepted, longer rejected" % MAXLEN, gate is None)
+    L.ob(R, F_SYS, FN, "folded on boundary witnesses, the decoder changes nothing in the frequency table but FREQ_TYPE_HOPP marks "
+         "(the cell allocation it decodes against stays what it was)", "only FREQ_TYPE_HOPP changes", table or "only FREQ_TYPE_HOPP changes", table is None)
+    L.extra["c20_fold"] = {"witnesses": n, "decoded": nlists, "domain": dom}
+    bad = [x for x in (diff, fault, gate, table) if x]
+    return ("differ", bad[0]) if bad else ("agree", ok_txt)
 
 
 # ============================================================== caller slices
@@ -3646,8 +4805,8 @@ def caller_files(L, tier):
 
 # ================================================================= call sites
 
-def r2_callers(L, D, tier):
-    B = Buffers(L, D.K["hdr"])
+def r2_callers(L, K, tier):
+    B = Buffers(L, K["hdr"])
     rels = [F_SYS, F_RR]
     if tier == "thorough":
         top = os.path.join(L.repo, "src/host/layer23/src")
@@ -3675,7 +4834,7 @@ def r2_callers(L, D, tier):
                     d["extent"] >= MAXHOP and t == "uint16_t", d["line"])
             for d in B.resolve(cf, fi, args[0], pos):
                 L.ob("C20.R4", d["file"], d["func"], "frequency table `%s` passed to %s() has %d entries (one per ARFCN)" % (
-                    d["decl"], FN, D.K["NFREQ"]), ">= %d" % D.K["NFREQ"], d["extent"], d["extent"] >= D.K["NFREQ"], d["line"])
+                    d["decl"], FN, K["NFREQ"]), ">= %d" % K["NFREQ"], d["extent"], d["extent"] >= K["NFREQ"], d["line"])
     L.floor("C20.R2", "call sites of %s" % FN, sites, 2)
     L.floor("C20.R2", "caller buffer declarations reached (1 struct member + 9 locals)", len(decls), 10)
 
@@ -3935,13 +5094,77 @@ def r5_setfh(L):
                  "offset in %s..%d; %s" % (mlen + off if mlen is not None else "?", Z0 + off, why), ok1 and lo_ok and hi_ok, fm.line(w.ast))
 
 
+class ProofOnly(object):
+    """Ledger view for the rule groups of a decoder with a bitmap-derived bound.  The rules then quantify over
+    (length, derived value) pairs without knowing which of them reach which statement, so an obligation that fails
+    there may rest on a combination no bitmap produces: it is a proof attempt that did not close, not a
+    counterexample.  It is kept back like a "cannot classify" (the witness fold decides); what is proven is recorded."""
+
+    def __init__(self, L, pending):
+        self._L, self._pending = L, pending
+
+    def __getattr__(self, name):
+        return getattr(self._L, name)
+
+    def ob(self, rule, file, func, key, required, found, ok, line=None, note=None):
+        if ok:
+            return self._L.ob(rule, file, func, key, required, found, ok, line, note)
+        self._pending.append("[%s] not proven for a decoder with a bitmap-derived bound: %s (expected %s, found %s)" % (
+            rule, str(key)[:160], str(required)[:60], str(found)[:160]))
+        return None
+
+    def require(self, rule, file, func, key, required, found, line=None, note=None):
+        return self.ob(rule, file, func, key, required, found, found == required, line, note)
+
+
+def soft(pending, fn):
+    """rule group of the decoder whose "cannot classify" is kept back: whether it ends the run as ANALYSIS-ERROR is decided
+    once the decoder was folded on the boundary witnesses (decide)"""
+    def run_group(*a, **kw):
+        try:
+            return fn(*a, **kw)
+        except AnalysisError as e:
+            pending.append(str(e))
+            return STAGE_FAILED
+    return run_group
+
+
+def decide(L, sl, pending, tier):
+    """The verdict on the decoder.  The structural rules C20.R1-R4/R7 decide it for every input when they recognise its
+    shape; their violations stand as they are.  The witness fold C20.R8 (a) confirms with concrete counterexamples,
+    (b) catches what a recognised shape still hides, and (c) when a structural rule met a shape it cannot classify --
+    and nothing else is wrong -- decides in its place: agreement with the reference decoding on every witness ends the
+    run silently, with the structural proof recorded as open; an undecided fold leaves the ANALYSIS-ERROR."""
+    fm, K = sl
+    verdict, why = r8_fold(L, fm, K, tier)
+    pending = [x for k, x in enumerate(pending) if x not in pending[:k]]
+    if not pending:
+        return
+    if verdict == "undecided":
+        raise AnalysisError("; ".join(pending + ["the decoder could not be folded on witnesses either (%s)" % why]))
+    # the shape is not recognised, the witnesses are decided (a difference is a violation of C20.R8 by now)
+
+    def again():
+        raise AnalysisError(pending[0])
+    L.structural("C20.R1-R4 guard atoms, counted loops and index folds of gsm48_decode_mobile_alloc (for every length, bitmap and "
+                 "cell allocation)", again)
+    L.extra["c20_structural_open"] = pending[:5]
+
+
 def run(L, tier):
     L.stage(r6_readable, L, tier)       # callers: bitmap octets exist (own slices, independent of the decoder's)
     L.stage(r5_setfh, L)                # downstream consumer
     sl = L.stage(build_slice, L)
-    D = L.stage(lambda x: Dec(L, x[0], x[1]), sl)
-    L.stage(r1_gate, L, D)
-    L.stage(r2_output, L, D)
-    L.stage(r3_scratch, L, D)
-    L.stage(r4_order, L, D)
-    L.stage(r2_callers, L, D, tier)
+    L.stage(lambda x: r2_callers(L, x[1], tier), sl)        # caller buffers (lexer; independent of the decoder's shape)
+    pending = list(sl[1]["refused"]) if sl is not STAGE_FAILED else []
+    D = L.stage(soft(pending, lambda x: Dec(L, x[0], x[1])), sl)
+    LD = L
+    if D is not STAGE_FAILED:
+        D.pending = pending
+        if any(len({tuple(sorted(dv.items())) for (_, dv) in rows}) > 1 for rows in D.fm.dcases.values()):
+            LD = ProofOnly(L, pending)      # a bound that varies with the bitmap (not just a local that is a function of the length)
+    L.stage(soft(pending, r1_gate), L, D)
+    L.stage(soft(pending, r2_output), LD, D)
+    L.stage(soft(pending, r3_scratch), LD, D)
+    L.stage(soft(pending, r4_order), LD, D)
+    L.stage(decide, L, sl, pending, tier)
